@@ -437,23 +437,29 @@ def cases(tier, seed):
 _TMP = []
 
 
-def shard_setup(tier, seed):
-    """once per shard: pyarrow stub + dask.dataframe; a private directory for the disk shuffle's partd files
-    (dask leaves one ``*.partd`` directory per disk shuffle behind), removed when the shard ends."""
+def _private_tmp():
+    """a private directory for the disk shuffle's partd files (dask leaves one ``*.partd`` directory per disk shuffle
+    behind in the temporary directory), removed when the shard / process ends."""
     import atexit
     import shutil
     import tempfile
 
+    import dask
+
+    if not _TMP:
+        d = tempfile.mkdtemp(prefix="vf-c38partd-")
+        _TMP.append(d)
+        atexit.register(shutil.rmtree, d, True)
+    dask.config.set(temporary_directory=_TMP[0])
+
+
+def shard_setup(tier, seed):
+    """once per shard: pyarrow stub + dask.dataframe + private temporary directory"""
     from vf.gen import frames
 
     frames.setup()
     warnings.simplefilter("ignore")
-    import dask
-
-    d = tempfile.mkdtemp(prefix="vf-c38partd-")
-    _TMP.append(d)
-    dask.config.set(temporary_directory=d)
-    atexit.register(shutil.rmtree, d, True)
+    _private_tmp()
 
 
 def shard_finish():
@@ -461,6 +467,7 @@ def shard_finish():
 
     for d in _TMP:
         shutil.rmtree(d, ignore_errors=True)
+    del _TMP[:]
     return {}
 
 
@@ -476,7 +483,15 @@ def _frame(case):
     if case.get("nakey") and n:
         mask = r.random(n) < 0.2
         pdf.loc[mask, "b"] = None                                      # NA keys in the str column
+    # ---- ablations (only used to attribute a failure to an input feature, see _canonicalise) ----
+    if case.get("nonegzero"):
+        pdf["c"] = pdf["c"] + 0.0                                      # -0.0 -> 0.0
+    if case.get("dropnakeyrows") and n:
+        pdf = pdf[~_row_na_keys(pdf, case)]
     return pdf
+
+
+_NONEGZERO = [False]     # set by _run for the ablated re-run of a case (derived keys cannot see the case)
 
 
 def _series_key(df, tok):
@@ -487,7 +502,7 @@ def _series_key(df, tok):
     if tok == "s:n%2":
         return df["n"] % 2
     if tok == "s:c.round":
-        return df["c"].round()
+        return df["c"].round() + 0.0 if _NONEGZERO[0] else df["c"].round()
     if tok.startswith("s:col:"):
         return df[tok[6:]]
     raise ValueError(tok)
@@ -756,11 +771,11 @@ class _Judge:
         self.got = self.exp = None
 
     def report(self, pred, symptom, msg, fam=None):
-        if pred == "other":
+        verified = pred != "other"
+        if not verified:
             pred = _fallback_pred(self.f)
-        label = "%s:%s:%s" % (fam or self.fam, pred, symptom)
-        self.ctx.violation(label, msg, features=self.f, by=self.case["by"], gkw=self.case["gkw"], akw=self.case["akw"],
-                           op=self.case["op"], got=self.got, expected=self.exp)
+        self.ctx.finding(fam or self.fam, pred, symptom, msg, verified, features=self.f, by=self.case["by"],
+                         gkw=self.case["gkw"], akw=self.case["akw"], op=self.case["op"], got=self.got, expected=self.exp)
 
     # ------------------------------------------------------------------
     def run(self, r, e):
@@ -922,8 +937,6 @@ class _Judge:
             return "sort=True&split_out=1"
         if self.name == "median" and f["split_every"] and (f["series-key"] or f["index-key"]):
             return "split_every&series-or-index-key"
-        if self.fam in ("transform", "shift", "ffill-bfill") and f["cat-key"] and f["observed"] is False:
-            return "cat-key&observed=False"
         if self.fam == "value_counts" and f["neg-zero-key"]:
             return "key-has-0.0-and-negative-0.0"
         if self.fam == "value_counts" and f["na-keys"] and f["dropna"] is False:
@@ -1070,7 +1083,7 @@ def _exc_prefix(case, name, feats, exc):
     elif fam == "cov-corr":
         if fn == "make_meta_object":
             pred = "meta-of-tuple-chunk"
-        elif fn in ("_cov_finalizer", "_cov_agg") and isinstance(exc, ValueError) and f["empty-partition"]:
+        elif fn in ("_cov_finalizer", "_cov_agg") and isinstance(exc, (ValueError, AttributeError)) and f["empty-partition"]:
             pred = "empty-partition"
         elif fn == "_groupby_raise_unaligned" and isinstance(exc, KeyError) and f["series-key"] and f["multi-key"]:
             pred = "series-key&multi-key"
@@ -1078,18 +1091,188 @@ def _exc_prefix(case, name, feats, exc):
             pred = "index-key"
         elif "NA is ambiguous" in msg and f["values-have-NA"]:
             pred = "nullable-NA-in-values"
-    if pred == "other":
+    verified = pred != "other"
+    if not verified:
         pred = _fallback_pred(f)
-    return "%s:%s" % (fam, pred)
+    return fam, pred, verified
+
+
+class _Tap:
+    """what _run reports to: observation calls go to the real ctx (or nowhere, for the ablated re-run of a case);
+    findings are collected as structured items (family, predicate, symptom) so that they can be canonicalised
+    before they become labels."""
+
+    def __init__(self, ctx=None):
+        self.ctx, self.items, self.status, self.feats = ctx, [], "ok", None
+        self.nontrivial, self.sig, self.sample = False, None, None
+
+    @property
+    def violations(self):
+        return self.items
+
+    def op(self, *a):
+        if self.ctx is not None:
+            self.ctx.op(*a)
+
+    def count(self, *a):
+        if self.ctx is not None:
+            self.ctx.count(*a)
+
+    def distinct(self, *a):
+        if self.ctx is not None:
+            self.ctx.distinct(*a)
+
+    def reject(self, reason):
+        self.status = "rejected"
+        if self.ctx is not None:
+            self.ctx.reject(reason)
+
+    def unsupported(self, reason):
+        self.status = "unsupported"
+        if self.ctx is not None:
+            self.ctx.unsupported(reason)
+
+    def finding(self, fam, pred, symptom, msg, verified, **detail):
+        self.items.append({"fam": fam, "pred": pred, "symptom": symptom, "msg": msg, "verified": verified,
+                           "detail": detail, "exc": None})
+
+    def exception(self, exc, fam, pred, verified, **detail):
+        from vf.core.ctx import CaseTimeout, exc_label
+
+        if isinstance(exc, CaseTimeout):
+            raise exc
+        self.items.append({"fam": fam, "pred": pred, "symptom": exc_label(exc), "msg": "%s: %s" % (type(exc).__name__, exc),
+                           "verified": verified, "detail": detail, "exc": exc})
+
+
+def _label(it):
+    if it.get("label"):
+        return it["label"]
+    sym = it["symptom"]
+    if it["exc"] is not None and it["verified"]:
+        sym = sym.split("@")[0]            # the verified input predicate names the mechanism; keep the exception type only
+    return "%s:%s:%s" % (it["fam"], it["pred"], sym)
+
+
+def _group(fam):
+    if fam in ("nunique", "median", "cov-corr", "value_counts", "cum"):
+        return fam
+    if fam in ("transform", "shift", "ffill-bfill", "transform-like"):
+        return "transform-like"
+    return "agg-any"
+
+
+def _symptom_class(it):
+    if it["exc"] is not None:
+        return "exception"
+    s = it["symptom"]
+    return "names" if s in ("name", "index-names") else s
+
+
+ABLATIONS = ("cat-key&observed=False", "key-has-0.0-and-negative-0.0", "na-keys&dropna=False", "na-keys&dropna!=False")
+
+
+def _ablated(case, feats, feature):
+    """the same case with one input feature removed, or None when the case does not have the feature"""
+    gkw = dict(case["gkw"])
+    if feature == "cat-key&observed=False" and feats.get("cat-key") and feats.get("observed") is False:
+        gkw["observed"] = True
+        return dict(case, gkw=gkw)
+    if feature == "key-has-0.0-and-negative-0.0" and feats.get("neg-zero-key"):
+        return dict(case, nonegzero=True)
+    if feature == "na-keys&dropna=False" and feats.get("na-keys") and feats.get("dropna") is False:
+        gkw.pop("dropna")
+        return dict(case, gkw=gkw)
+    if feature == "na-keys&dropna!=False" and feats.get("na-keys") and feats.get("dropna") is not False:
+        return dict(case, dropnakeyrows=True)
+    return None
+
+
+def _canonicalise(case, feats, items):
+    """one mechanism = one label.
+
+    (1) static merges of symptom variants of one verified predicate; (2) ablation: for the input features that
+    produce a tail of symptom variants (unobserved categories, 0.0/-0.0 keys, NA keys) the case is re-run with the
+    feature removed; findings that name the feature (or have no verified predicate) and are gone in the ablated run
+    are caused by it and are replaced by ONE label ``<op group>:<feature>``.  Whatever is not matched keeps its full
+    label, so a new defect still shows as new."""
+    for it in items:
+        if it["fam"] == "agg" and it["pred"].endswith("group-spans-partitions"):
+            it["fam"] = "first-last"                      # agg([... 'first'/'last' ...]) runs the same chunk/aggregate pair
+        if it["pred"] in ("agg[median]&series-groupby&single-function", "agg[median]&series-groupby") \
+                and it["symptom"] in ("kind", "columns"):
+            it["pred"], it["symptom"] = "agg[median]&series-groupby", "result-shape"
+        if it["fam"] == "cov-corr" and it["pred"] == "empty-partition" and it["exc"] is not None:
+            it["label"] = "cov-corr:empty-partition:exception"
+        if it["pred"] == "empty-frame":
+            it["label"] = "%s:empty-frame:%s" % (_group(it["fam"]), _symptom_class(it))
+        if it["pred"] == "empty-result":
+            it["label"] = "%s:empty-result:%s" % (_group(it["fam"]), _symptom_class(it))
+    for feature in ABLATIONS:
+        elig = [it for it in items if not it.get("canonical") and (feature in it["pred"] or not it["verified"])]
+        if not elig:
+            continue
+        acase = _ablated(case, feats, feature)
+        if acase is None:
+            continue
+        tap = _Tap(None)
+        try:
+            _run(acase, tap)
+        except Exception:  # noqa: BLE001  (attribution only)
+            continue
+        if tap.status != "ok":
+            continue
+        left = {(it["fam"], it["symptom"]) for it in tap.items}
+        gone = [it for it in elig if (it["fam"], it["symptom"]) not in left]
+        if not gone:
+            continue
+        first = gone[0]
+        merged = dict(first, label="%s:%s" % (_group(first["fam"]), feature), canonical=True,
+                      msg="%s  [caused by %s: the same case without it has none of %s]"
+                          % (first["msg"], feature, sorted({_label(g) for g in gone})))
+        items = [it for it in items if it not in gone] + [merged]
+    return items
 
 
 def run_case(case, ctx):
+    from vf.core.ctx import through_shim
+
+    tap = _Tap(ctx)
+    _run(case, tap)
+    ctx.nontrivial, ctx.sig, ctx.sample = tap.nontrivial, tap.sig, tap.sample
+    items = tap.items
+    if items and tap.feats is not None:
+        ctx.count("cases_with_findings")
+        items = _canonicalise(case, tap.feats, items)
+        if any(it.get("canonical") for it in items):
+            ctx.count("findings_attributed_by_ablation")
+    seen = set()
+    for it in items:
+        lab = _label(it)
+        if lab in seen:
+            continue
+        seen.add(lab)
+        if it["exc"] is not None:
+            if through_shim(it["exc"]):
+                ctx.envlimited(it["msg"])
+                continue
+            import traceback
+
+            e = it["exc"]
+            it["detail"]["traceback"] = "".join(traceback.format_exception(type(e), e, e.__traceback__))[-3000:]
+        ctx.violation(lab, it["msg"], **it["detail"])
+
+
+def _run(case, ctx):
     from vf.gen import frames
 
     frames.setup()
     import pandas as pd
 
     warnings.simplefilter("ignore")
+    if not _TMP:
+        _private_tmp()          # replay / direct call without shard_setup
+    _NONEGZERO[0] = bool(case.get("nonegzero"))
     op = case["op"]
     name = _opname(op)
     pdf = _frame(case)
@@ -1108,7 +1291,7 @@ def run_case(case, ctx):
     try:
         ddf = frames.partition(pdf, case["part"])
     except Exception as ex:  # noqa: BLE001
-        ctx.exception(ex, prefix="partition")
+        ctx.exception(ex, "partition", "other", False)
         return
     plan = ()
     odep = name in ORDER_DEP or (op["kind"] == "agg" and any(f in ORDER_DEP for f in _agg_funcs(op)))
@@ -1131,10 +1314,12 @@ def run_case(case, ctx):
                     not {k for k in ks if "<NA>" not in k} for ks in _partition_key_sets(ddf, case))
             except Exception:  # noqa: BLE001
                 feats["partition-without-non-NA-key"] = None
-        ctx.exception(ex, prefix=_exc_prefix(case, name, feats, ex), case_features=feats, by=case["by"],
+        ctx.feats = feats
+        ctx.exception(ex, *_exc_prefix(case, name, feats, ex), case_features=feats, by=case["by"],
                       gkw=case["gkw"], akw=case["akw"], op=op)
         return
     feats = _features(case, pdf, ddf, plan)
+    ctx.feats = feats
     shuffled = feats["shuffle-plan"]
     ordered = (op["kind"] == "cum") or (
         op["kind"] in ("single", "agg") and case["gkw"].get("sort") is True
@@ -1163,8 +1348,8 @@ def run_case(case, ctx):
         _Judge(case, ctx, name, feats, pdf, ddf, ordered, rtol, odep).run(result, expected)
     except Exception as ex:  # noqa: BLE001  (a comparison step that cannot be carried out is a mismatch of its own)
         if len(ctx.violations) == nv:
-            ctx.violation("%s:other:uncomparable" % _family(name), "%s: %s" % (type(ex).__name__, ex), features=feats,
-                          got=_short(result), expected=_short(expected))
+            ctx.finding(_family(name), "other", "uncomparable", "%s: %s" % (type(ex).__name__, ex), False, features=feats,
+                        got=_short(result), expected=_short(expected))
     ctx.sample = {"op": name, "by": case["by"], "gkw": case["gkw"], "akw": case["akw"], "rows": len(pdf),
                   "npartitions": ddf.npartitions, "groups": nexp, "ordered": ordered, "shuffle": shuffled}
 
